@@ -6,7 +6,7 @@ ID = "C09"; MODEL = "life"; IMPL = "life"
 COQ_PROP = "Properties/C09.v"; COQ_DIRS = ["Common", "Life"]
 COQ_MODULE = "Life.Model"; RUN_FN = "run"
 THEOREMS = ["C09_handler_runs_only_if_active", "C09_calls_carry_active", "C09_inert_while_down", "C09_reset_once_per_shutdown",
-            "C09_restart_stages_once_at_time", "C09_old_incarnation_silent", "C09_shutdown_frame",
+            "C09_restart_stages_once_at_time", "C09_old_incarnation_silent", "C09_fresh_after_restart_partial", "C09_shutdown_frame",
             "C09_delivery_independent_of_m", "C09_run_terminates", "C09_run_is_generated"]
 QUICK_N = 2500; THOROUGH_N = 120000
 RULE = ("scripts = 2..4 scripted modules on a ring (gate out -> next module, gate far -> transit gate of the next module -> the one after), "
